@@ -324,7 +324,7 @@ func runSync(c *Case) ([]Obs, any) {
 	extra := map[string]any{"storage_ops": store.OpCount() - bootOps, "mutations": len(store.Log), "fault_hit": store.Failed,
 		"mutation_ops": mutOps}
 	loadChain := func(img *VStore) []int64 {
-		g := &flowNode{ctx: f.ctx, store: img, bu: bu, tu: tu, cfg: testCfg{2000}}
+		g := &flowNode{ctx: f.ctx, store: img, bu: bu, tu: tu, cfg: testCfg{delay: 2000}}
 		var res []int64
 		func() {
 			defer func() {
